@@ -1,6 +1,7 @@
 (* C15 — renaming is harmless and emitted names are hygienic: the name generator.  Property theorems only. *)
 From Coq Require Import List NArith Bool String Ascii.
-From RV Require Import Wire NameGen NameGenProofs GenNames Scopes ScopesProofs TargetWords TargetWordsProofs.
+From RV Require Import Wire NameGen NameGenProofs GenNames Scopes ScopesProofs TargetWords TargetWordsProofs NameGenEquiv.
+From Coq Require Import Permutation.
 Import ListNotations.
 Local Open Scope string_scope.
 
@@ -90,6 +91,43 @@ Example C15_example :
   Some ([((3, 2)%N, "f_0"); ((2, 1)%N, "g")], [((2, 0)%N, "abs_0"); ((3, 0)%N, "f_1"); ((3, 1)%N, "f_2")]).
 Proof. vm_compute. reflexivity. Qed.
 
+(* ---- renaming (first sentence of the property, for the name generator): for every reserved list, every scope whose
+        names are fresh - pairwise distinct, none of the form m_k for a name m of the scope, no m_k reserved - and every
+        renaming onto names that are fresh again and reserved exactly when the original was: the symbols that kept
+        their name keep the renamed name, and the i-th symbol of any other name n, which got n_i, gets (f n)_i ---- *)
+Theorem C15_renaming_renames_the_result : forall reserved f es,
+  Fresh reserved es -> Fresh reserved (ren f es) -> keeps_reserved reserved f es ->
+  exists G G',
+    assign_scope reserved es = Some (kept_assignments reserved es, G) /\
+    assign_scope reserved (ren f es) = Some (map (fun p => (fst p, f (snd p))) (kept_assignments reserved es), G') /\
+    Permutation G (closed_gen reserved es) /\ Permutation G' (ren_closed_gen reserved f es).
+Proof. exact rename_equivariant. Qed.
+
+(* a test for freshness: no name of the scope and no reserved word ends in an underscore and digits *)
+Theorem C15_fresh_when_plain : forall reserved es,
+  NoDup (names es) -> plain_names (names es) = true -> plain_names reserved = true -> Fresh reserved es.
+Proof. exact fresh_intro. Qed.
+
+(* table obligation: no reserved word of either exporter has the shape of a generated name *)
+Theorem C15_reserved_words_are_plain : plain_names hlsl_reserved = true /\ plain_names msl_reserved = true.
+Proof. split; vm_compute; reflexivity. Qed.
+
+(* non-vacuity with the real HLSL table: overloads f, f; a free name g; a reserved name abs; renamed to foo, bar, min *)
+Example C15_renaming_example :
+  let es := [mkEntry "f" [(1, 0); (1, 1)]%N; mkEntry "g" [(1, 2)%N]; mkEntry "abs" [(1, 3)%N]] in
+  let f := fun n => if String.eqb n "f" then "foo" else if String.eqb n "g" then "bar" else "min" in
+  Fresh hlsl_reserved es /\ Fresh hlsl_reserved (ren f es) /\ keeps_reserved hlsl_reserved f es /\
+  assign_scope hlsl_reserved es = Some ([((1, 2)%N, "g")], [((1, 3)%N, "abs_0"); ((1, 0)%N, "f_0"); ((1, 1)%N, "f_1")]) /\
+  assign_scope hlsl_reserved (ren f es) = Some ([((1, 2)%N, "bar")], [((1, 0)%N, "foo_0"); ((1, 1)%N, "foo_1"); ((1, 3)%N, "min_0")]).
+Proof.
+  cbv zeta. split; [|split; [|split; [|split]]].
+  - apply fresh_intro; [repeat constructor; cbn; intuition discriminate|vm_compute; reflexivity|exact (proj1 C15_reserved_words_are_plain)].
+  - apply fresh_intro; [repeat constructor; cbn; intuition discriminate|vm_compute; reflexivity|exact (proj1 C15_reserved_words_are_plain)].
+  - intros n Hn. cbn in Hn. destruct Hn as [<-|[<-|[<-|[]]]]; vm_compute; reflexivity.
+  - vm_compute. reflexivity.
+  - vm_compute. reflexivity.
+Qed.
+
 Print Assumptions C15_reserved_lists_well_formed.
 Print Assumptions C15_target_words_are_reserved.
 Print Assumptions C15_target_words_reserved_each.
@@ -97,3 +135,6 @@ Print Assumptions C15_build_total.
 Print Assumptions C15_scope_hygiene.
 Print Assumptions C15_locals_avoid_reserved_and_generated.
 Print Assumptions C15_emitted_path_names_its_symbol.
+Print Assumptions C15_renaming_renames_the_result.
+Print Assumptions C15_fresh_when_plain.
+Print Assumptions C15_reserved_words_are_plain.
